@@ -25,7 +25,7 @@ from checks import lib  # noqa: E402
 from harness import tlc  # noqa: E402
 
 QUICK = dict(tier="quick", maxlen=3, rand_programs=150, rand_depth=4, rand_mailboxes=0,
-             jobs=28, procs=14, tlc_timeout=600)
+             jobs=14, procs=14, tlc_timeout=600)
 THOROUGH = dict(tier="thorough", maxlen=3, rand_programs=800, rand_depth=5, rand_mailboxes=60,
                 jobs=56, procs=14, tlc_timeout=3000)
 
